@@ -321,15 +321,14 @@ def parse_kani(out):
         v = re.search(r"^VERIFICATION:- (\w+)", txt, re.M)
         st = sum(float(x) for x in re.findall(r"Runtime Solver: ([0-9.eE+-]+)s", txt))
         vt = re.search(r"Verification Time: ([0-9.]+)s", txt)
-        pb = None
-        mm = re.search(r"concrete_vals: Vec<Vec<u8>> = vec!\[(.*?)\n\s*\];", txt, re.S)
-        if mm:
-            pb = []
-            for line in mm.group(1).split("\n"):
+        pb = []   # [(description of the check the test is for, [byte vectors])]
+        for tm in re.finditer(r"/// Check for `(\w+)`: (.*?)\n.*?concrete_vals: Vec<Vec<u8>> = vec!\[(.*?)\n\s*\];", txt, re.S):
+            vecs = []
+            for line in tm.group(3).split("\n"):
                 line = line.strip()
                 if line.startswith("vec!["):
-                    bs = [int(x) for x in re.findall(r"\d+", line[4:])]
-                    pb.append(bs)
+                    vecs.append([int(x) for x in re.findall(r"\d+", line[4:])])
+            pb.append((tm.group(1), tm.group(2).strip().strip('"'), vecs))
         res[h] = dict(checks=checks, summary=(int(m.group(1)), int(m.group(2))) if m else None, cover=(int(cov.group(1)), int(cov.group(2))) if cov else None,
                       verdict=v.group(1) if v else None, solver_s=st, verif_s=float(vt.group(1)) if vt else 0.0, playback=pb, text=txt)
     return res
@@ -493,9 +492,14 @@ def run(tier="quick", seed=0, pid="C06"):
 
     # failures: counterexample by concrete playback, replay with plain rustc on the same real files
     if failing:
-        bad_h = sorted(set(x[0] for v in failing.values() for x in v))
-        rc2, so2, se2, _ = run_kani(crate, bad_h, timeout, cmds, playback=True, target="target_playback")
-        pb = parse_kani(so2) if rc2 is not None else {}
+        bad_h = sorted(set(v[0][0] for v in failing.values()))   # one proof per failing label is enough
+        pb = {}
+        with concurrent.futures.ThreadPoolExecutor(min(16, len(bad_h))) as ex:
+            futs = [ex.submit(run_kani, crate, [h], timeout, cmds, True, "target_pb%d" % i) for i, h in enumerate(bad_h)]
+            for f in futs:
+                rc2, so2, se2, _ = f.result()
+                if rc2 is not None:
+                    pb.update(parse_kani(so2))
         binary, berr = build_replay(wd, cmds)
         ins_of = dict(HARNESS)
         proof_of = {p: (n, f) for p, n, f in PROOFS}
@@ -503,7 +507,9 @@ def run(tier="quick", seed=0, pid="C06"):
             pname, cid, desc, loc = failing[lab][0]
             name, fixed = proof_of[pname]
             ins = ins_of[name]
-            vals = decode_playback((pb.get("h_" + pname) or {}).get("playback"), ins, fixed) if ins else []
+            tests = (pb.get("h_" + pname) or {}).get("playback") or []
+            mine = [t for t in tests if t[0] != "cover" and t[1].startswith(lab + ":")] or [t for t in tests if t[0] != "cover"]
+            vals = decode_playback(mine[0][2] if mine else None, ins, fixed) if ins else []
             cex = dict(zip([a for a, _ in ins], vals)) if vals is not None else None
             w = None
             if binary is None:
